@@ -38,7 +38,7 @@ T_Built ==
   /\ LET ok == SpecReads(Rec[l].m, Rec[l].items) IN
      /\ Rec[l].old_reads = ok
      /\ Rec[l].new_reads = ok
-     /\ ok \/ (Rec[l].side = "new" /\ "D_new_compressor_revname_rest" \in OpenDevs)
+     /\ (IF ok \/ (Rec[l].side = "new" /\ "D_new_compressor_revname_rest" \in OpenDevs) THEN TRUE ELSE FALSE)
      /\ used' = IF ok THEN used ELSE used \cup {"D_new_compressor_revname_rest"}
 
 T_Big ==
